@@ -325,6 +325,9 @@ fn check_case(ctx: &mut Ctx, c: &mut Case, stepwise: bool) {
         ctx.sample(case(1 << 1));
     }
     let entry = if stepwise { "convert_with_filter+stepwise" } else { "convert_with_filter+ConvertUnit::convert" };
+    // generator-side trigger tag (see c12::check_dwarf): a recorded finding only covers inputs with it
+    let root_src = c.src == 0 && c.carrier != Carrier::None || matches!(c.second, Some((_, 0, _)));
+    let fk = |k: &str| if root_src { format!("{}[reference-from-unit-root]", k) } else { k.to_string() };
     let din = match dump_by_name(&b.secs, big) {
         Ok(d) => d,
         Err(e) => {
@@ -377,7 +380,7 @@ fn check_case(ctx: &mut Ctx, c: &mut Case, stepwise: bool) {
         let osecs = match out {
             ConvOut::Ok(s) => s,
             ConvOut::WriteErr(e) if e.contains("InvalidReference") => {
-                ctx.fail(entry, "write-never-fails-for-missing-reference", "write-error-InvalidReference", format!("{}\n  Dwarf::write failed with {} (a retained entry refers to an entry that was not kept)", case(req), e));
+                ctx.fail(entry, "write-never-fails-for-missing-reference", &fk("write-error-InvalidReference"), format!("{}\n  Dwarf::write failed with {} (a retained entry refers to an entry that was not kept)", case(req), e));
                 continue;
             }
             ConvOut::ConvErr(e) | ConvOut::WriteErr(e) => {
@@ -395,7 +398,7 @@ fn check_case(ctx: &mut Ctx, c: &mut Case, stepwise: bool) {
                     // (writer limitation, e.g. forward reference in an expression)
                     ctx.outcome(&format!("c19:err-as-unfiltered:{}", cls));
                 } else {
-                    ctx.fail(entry, "error-only-for-invalid-references", &format!("unexpected-error-{}", cls), format!("{}\n  filtered conversion failed with {} although every reference of every entry that may be retained is valid (unfiltered conversion: {})", case(req), e, match &unfiltered { Ok(_) => "Ok".to_string(), Err(c) => format!("Err {}", c) }));
+                    ctx.fail(entry, "error-only-for-invalid-references", &fk(&format!("unexpected-error-{}", cls)), format!("{}\n  filtered conversion failed with {} although every reference of every entry that may be retained is valid (unfiltered conversion: {})", case(req), e, match &unfiltered { Ok(_) => "Ok".to_string(), Err(c) => format!("Err {}", c) }));
                 }
                 continue;
             }
@@ -404,7 +407,7 @@ fn check_case(ctx: &mut Ctx, c: &mut Case, stepwise: bool) {
         let dout = match dump_by_name(&osecs, big) {
             Ok(d) => d,
             Err(e) => {
-                ctx.fail(entry, "output-readable", "output-not-readable", format!("{}\n  {}\n  output: {}", case(req), e, render_secs(&osecs)));
+                ctx.fail(entry, "output-readable", &fk("output-not-readable"), format!("{}\n  {}\n  output: {}", case(req), e, render_secs(&osecs)));
                 continue;
             }
         };
@@ -437,14 +440,14 @@ fn check_case(ctx: &mut Ctx, c: &mut Case, stepwise: bool) {
             } else {
                 "member-like-child-of-retained"
             };
-            ctx.fail(entry, "complete(L-subset-of-output)", &format!("missing-{}", why), format!("{}\n  expected at least {{{}}}, output has {{{}}}: {} is missing\n  output: {}", case(req), names(lower, c.n).join(","), names(present, c.n).join(","), name_of(m), render_secs(&osecs)));
+            ctx.fail(entry, "complete(L-subset-of-output)", &fk(&format!("missing-{}", why)), format!("{}\n  expected at least {{{}}}, output has {{{}}}: {} is missing\n  output: {}", case(req), names(lower, c.n).join(","), names(present, c.n).join(","), name_of(m), render_secs(&osecs)));
             continue;
         }
         let extra = present & !upper;
         if extra != 0 {
             let m = (1..=c.n).find(|k| extra & (1 << k) != 0).unwrap();
             let why = if c.parent[m] != 0 && c.class[c.parent[m]] == Class::N { "child-of-namespace-pulled-in" } else if c.parent[m] != 0 && present & (1 << c.parent[m]) != 0 { "standalone-child-pulled-in" } else { "unconnected-entry" };
-            ctx.fail(entry, "minimal(output-subset-of-U)", &format!("extra-{}", why), format!("{}\n  expected at most {{{}}}, output has {{{}}}: {} is not connected to a required entry\n  output: {}", case(req), names(upper, c.n).join(","), names(present, c.n).join(","), name_of(m), render_secs(&osecs)));
+            ctx.fail(entry, "minimal(output-subset-of-U)", &fk(&format!("extra-{}", why)), format!("{}\n  expected at most {{{}}}, output has {{{}}}: {} is not connected to a required entry\n  output: {}", case(req), names(upper, c.n).join(","), names(present, c.n).join(","), name_of(m), render_secs(&osecs)));
             continue;
         }
         if invalid_in_lower {
@@ -454,18 +457,18 @@ fn check_case(ctx: &mut Ctx, c: &mut Case, stepwise: bool) {
         let mut bad = false;
         for (n, (parent, attrs, dangling)) in &out_map {
             if !dangling.is_empty() {
-                ctx.fail(entry, "no-dangling-reference", "dangling-reference-in-output", format!("{}\n  entry {} of the output refers to {:?}\n  output: {}", case(req), n, dangling, render_secs(&osecs)));
+                ctx.fail(entry, "no-dangling-reference", &fk("dangling-reference-in-output"), format!("{}\n  entry {} of the output refers to {:?}\n  output: {}", case(req), n, dangling, render_secs(&osecs)));
                 bad = true;
                 break;
             }
             if let Some((rp, ra, _)) = reference.get(n) {
                 if ra != attrs {
-                    ctx.fail(entry, "same-attributes-as-unfiltered", "retained-entry-attributes-differ", format!("{}\n  entry {}:\n   unfiltered: {}\n   filtered  : {}\n  output: {}", case(req), n, ra, attrs, render_secs(&osecs)));
+                    ctx.fail(entry, "same-attributes-as-unfiltered", &fk("retained-entry-attributes-differ"), format!("{}\n  entry {}:\n   unfiltered: {}\n   filtered  : {}\n  output: {}", case(req), n, ra, attrs, render_secs(&osecs)));
                     bad = true;
                     break;
                 }
                 if rp != parent {
-                    ctx.fail(entry, "same-parent-as-unfiltered", "retained-entry-reparented", format!("{}\n  entry {} has parent '{}' in the unfiltered conversion and '{}' in the filtered one\n  output: {}", case(req), n, rp, parent, render_secs(&osecs)));
+                    ctx.fail(entry, "same-parent-as-unfiltered", &fk("retained-entry-reparented"), format!("{}\n  entry {} has parent '{}' in the unfiltered conversion and '{}' in the filtered one\n  output: {}", case(req), n, rp, parent, render_secs(&osecs)));
                     bad = true;
                     break;
                 }
